@@ -153,6 +153,9 @@ def gen_request_stream(rng: random.Random, max_msgs: int = 3) -> List[Parts]:
         if rng.random() < 0.08:
             m = [("blank", CRLF)] * rng.choice([1, 2]) + m
         msgs.append(m)
+    if rng.random() < 0.2:
+        # stray empty lines behind the last request (also behind one that closes the connection)
+        msgs[-1] = msgs[-1] + [("blank", CRLF)] * rng.choice([1, 2, 3])
     return msgs
 
 
